@@ -126,7 +126,7 @@ func planC12(tier string, root *simcore.RNG) *plan {
 			}
 			nrand := 16
 			if thorough {
-				nrand = 120
+				nrand = 300
 			}
 			for i := 0; i < nrand; i++ {
 				budgets = append(budgets, int64(rb.Intn(int(lim)+1)))
@@ -155,7 +155,7 @@ func planC12(tier string, root *simcore.RNG) *plan {
 	histories := 6
 	reps := 4
 	if thorough {
-		histories = 40
+		histories = 120
 	}
 	for h := 0; h < histories; h++ {
 		r := root.Fork()
